@@ -1,4 +1,716 @@
-//! C07: harness domain (stub).
+//! C07: every send-side operation emits exactly one well-formed frame with the right content.
+//!
+//! Part A — real `Connection` operations against the scripted peer, pass-through and distribution-header mode.
+//!   Every operation is followed by a sentinel frame (`send_raw` of 16 seeded bytes) so that the peer can tell without any
+//!   timing where the operation's bytes end.  Tie: the exact wire bytes and the number of partial writes (H3 hook points
+//!   hit + 1) against the Lean model; oracle: the independent frame reader on the wire bytes.
+//! Part B — operations on connections that are not connected (never connected, handshake failed at each step, closed):
+//!   must fail with the state error and write nothing.
+//! Part C — concurrency through a real `Node`: k tasks on a current-thread runtime, the H3 yield hook yielding a seeded
+//!   0..3 times between the partial writes; the hook trace is replayed through the lock/write model and the wire bytes
+//!   must be whole frames with every task's operations in issue order.
+use crate::canon::{hex, hexarg, pid_text, term_text};
+use crate::peer::*;
+use crate::tgen::{gen_atom_name, gen_pid, gen_ref, gen_term, gen_u32, Cfg};
 use crate::Ctx;
+use edp_client::flags::DistributionFlags;
+use edp_client::{Connection, ConnectionConfig};
+use erltf::types::{Atom, ExternalPid, ExternalReference};
+use erltf::OwnedTerm;
+use std::sync::atomic::{AtomicUsize, Ordering};
+use std::sync::{Arc, Mutex};
+use std::time::Duration;
+use tokio::io::AsyncReadExt;
 
-pub fn run(_ctx: &mut Ctx) {}
+const UNLINK_IDS: &[u64] = &[1, 2, 255, 256, 1 << 31, (1 << 31) + 1, (1 << 32) - 1, 1 << 32, (1 << 63) - 1, 1 << 63, (1 << 63) + 1, u64::MAX - 1, u64::MAX];
+
+#[derive(Clone)]
+enum Op {
+    Send(ExternalPid, ExternalPid, OwnedTerm),
+    RegSend(ExternalPid, String, OwnedTerm),
+    Link(ExternalPid, ExternalPid),
+    Unlink(ExternalPid, ExternalPid, u64),
+    Monitor(ExternalPid, ExternalPid, ExternalReference),
+    Demonitor(ExternalPid, ExternalPid, ExternalReference),
+}
+
+fn ref_text(r: &ExternalReference) -> String {
+    term_text(&OwnedTerm::Reference(r.clone()))
+}
+
+impl Op {
+    fn text(&self) -> String {
+        match self {
+            Op::Send(f, t, m) => format!("S;{};{};{}", pid_text(f), pid_text(t), term_text(m)),
+            Op::RegSend(f, n, m) => format!("R;{};{};{}", pid_text(f), hexarg(n.as_bytes()), term_text(m)),
+            Op::Link(f, t) => format!("L;{};{}", pid_text(f), pid_text(t)),
+            Op::Unlink(f, t, i) => format!("U;{};{};{}", pid_text(f), pid_text(t), i),
+            Op::Monitor(f, t, r) => format!("M;{};{};{}", pid_text(f), pid_text(t), ref_text(r)),
+            Op::Demonitor(f, t, r) => format!("D;{};{};{}", pid_text(f), pid_text(t), ref_text(r)),
+        }
+    }
+    fn kind(&self) -> &'static str {
+        match self {
+            Op::Send(..) => "send",
+            Op::RegSend(..) => "reg_send",
+            Op::Link(..) => "link",
+            Op::Unlink(..) => "unlink",
+            Op::Monitor(..) => "monitor",
+            Op::Demonitor(..) => "demonitor",
+        }
+    }
+    async fn run(&self, c: &mut Connection) -> edp_client::Result<()> {
+        match self.clone() {
+            Op::Send(f, t, m) => c.send_message(f, t, m).await,
+            Op::RegSend(f, n, m) => c.send_to_name(f, Atom::new(n), m).await,
+            Op::Link(f, t) => c.link(&f, &t).await,
+            Op::Unlink(f, t, i) => c.unlink(&f, &t, i).await,
+            Op::Monitor(f, t, r) => c.monitor(&f, &t, &r).await,
+            Op::Demonitor(f, t, r) => c.demonitor(&f, &t, &r).await,
+        }
+    }
+}
+
+fn gen_name(ctx: &mut Ctx) -> String {
+    match ctx.rng.below(12) {
+        0 => "a".repeat(255),
+        1 => "b".repeat(256),
+        2 => "é".repeat(127) + "z",  // 255 bytes, 128 characters
+        3 => "日".repeat(85) + "z",   // 256 bytes
+        4 => "rex".to_string(),
+        5 => String::new(),
+        6 if ctx.rng.chance(1, if ctx.thorough { 40 } else { 8 }) => "n".repeat(65535),
+        7 if ctx.rng.chance(1, if ctx.thorough { 30 } else { 6 }) => "m".repeat(65536), // cannot be encoded: the operation must fail and write nothing
+        _ => gen_atom_name(&mut ctx.rng, true),
+    }
+}
+
+/// payload terms: C01's generator, plus atom-count boundaries of the distribution header (255 / 256 distinct atoms)
+fn gen_payload(ctx: &mut Ctx, cfg: &Cfg) -> OwnedTerm {
+    match ctx.rng.below(40) {
+        0 | 1 => {
+            let k = *ctx.rng.pick(&[250usize, 252, 253, 254, 255, 256]);
+            ctx.count(&format!("payload_distinct_atoms_{}", k));
+            OwnedTerm::List((0..k).map(|i| OwnedTerm::Atom(Atom::new(format!("atom_{}", i)))).collect())
+        }
+        2 => OwnedTerm::Atom(Atom::new("x".repeat(*ctx.rng.pick(&[255usize, 256, 300])))),
+        3 => OwnedTerm::Integer(*ctx.rng.pick(&[0i64, 255, 256, -1, i64::MAX, i64::MIN])),
+        _ => gen_term(&mut ctx.rng, cfg, 0),
+    }
+}
+
+fn gen_op(ctx: &mut Ctx, cfg: &Cfg) -> Op {
+    // the very large leaves (70000-byte binaries, 65535-byte atoms, 255-digit integers) in a quarter of the operations
+    let small = Cfg { huge: false, ..cfg.clone() };
+    let cfg = if ctx.rng.chance(1, 4) { cfg } else { &small };
+    let from = gen_pid(&mut ctx.rng, true);
+    let to = gen_pid(&mut ctx.rng, true);
+    if from.local_ext_bytes.is_some() || to.local_ext_bytes.is_some() {
+        ctx.count("args_with_node_local_pid");
+    }
+    match ctx.rng.below(8) {
+        0 | 1 => Op::Send(from, to, gen_payload(ctx, cfg)),
+        2 | 3 => {
+            let n = gen_name(ctx);
+            ctx.count(&format!("name_len_{}", match n.len() { 0 => "0", 1..=254 => "1_254", 255 => "255", 256 => "256", 257..=65535 => "257_65535", _ => "over_65535" }));
+            if !n.is_ascii() {
+                ctx.count("name_non_ascii");
+            }
+            Op::RegSend(from, n, gen_payload(ctx, cfg))
+        }
+        4 => Op::Link(from, to),
+        5 => {
+            let id = if ctx.rng.chance(2, 3) { *ctx.rng.pick(UNLINK_IDS) } else { (ctx.rng.next() >> ctx.rng.below(64)).max(1) };
+            ctx.count(&format!("unlink_id_{}", if id < (1 << 31) { "lt_2_31" } else if id < (1 << 63) { "lt_2_63" } else { "ge_2_63" }));
+            Op::Unlink(from, to, id)
+        }
+        k => {
+            let r = gen_ref(&mut ctx.rng, true, false);
+            if r.local_ext_bytes.is_some() {
+                ctx.count("args_with_node_local_ref");
+            }
+            if k == 6 { Op::Monitor(from, to, r) } else { Op::Demonitor(from, to, r) }
+        }
+    }
+}
+
+fn err_class(e: &edp_client::Error) -> String {
+    match e {
+        edp_client::Error::InvalidState { .. } => "err:state".to_string(),
+        edp_client::Error::Encode(_) => "err:encode".to_string(),
+        edp_client::Error::MessageTooLarge { .. } => "err:toolarge".to_string(),
+        edp_client::Error::InvalidStateMessage(m) if m == "no active stream" => "err:nostream".to_string(),
+        other => format!("err:other:{}", other.to_string().replace(' ', "_")),
+    }
+}
+
+/// the atom order of a distribution header, read off the real bytes (`4-byte length, 131, 68, N, flags, refs`)
+fn header_order(wire: &[u8]) -> Option<String> {
+    let b = wire.get(4..)?;
+    if b.len() < 3 || b[0] != 131 || b[1] != 68 {
+        return None;
+    }
+    let n = b[2] as usize;
+    if n == 0 {
+        return Some("-".to_string());
+    }
+    let flags = b.get(3..3 + n / 2 + 1)?;
+    let nib = |i: usize| -> u8 { if i % 2 == 0 { flags[i / 2] & 15 } else { flags[i / 2] >> 4 } };
+    let long = nib(n) & 1 == 1;
+    let mut p = 3 + n / 2 + 1;
+    let mut out = vec![];
+    for _ in 0..n {
+        p += 1; // internal index
+        let len = if long {
+            let l = u16::from_be_bytes([*b.get(p)?, *b.get(p + 1)?]) as usize;
+            p += 2;
+            l
+        } else {
+            let l = *b.get(p)? as usize;
+            p += 1;
+            l
+        };
+        out.push(format!("x{}", hex(b.get(p..p + len)?)));
+        p += len;
+    }
+    Some(out.join(","))
+}
+
+/// everything the client wrote up to and excluding the sentinel frame; `None` on timeout / close
+async fn read_until_sentinel(peer: &mut PeerConn, sentinel: &[u8], wait: Duration) -> Option<Vec<u8>> {
+    let mut tail = (sentinel.len() as u32).to_be_bytes().to_vec();
+    tail.extend_from_slice(sentinel);
+    let mut out: Vec<u8> = vec![];
+    let mut buf = vec![0u8; 1 << 16];
+    let r = tokio::time::timeout(wait, async {
+        loop {
+            if out.len() >= tail.len() && out[out.len() - tail.len()..] == tail[..] {
+                return true;
+            }
+            match peer.stream.read(&mut buf).await {
+                Ok(n) if n > 0 => out.extend_from_slice(&buf[..n]),
+                _ => return false,
+            }
+        }
+    })
+    .await;
+    match r {
+        Ok(true) => {
+            out.truncate(out.len() - tail.len());
+            Some(out)
+        }
+        _ => None,
+    }
+}
+
+static HOOK_HITS: AtomicUsize = AtomicUsize::new(0);
+
+async fn connect_pair(epmd: &FakeEpmd, case: usize, header: bool, dev: Deviation, timeout_ms: u64) -> (Connection, edp_client::Result<()>, Option<PeerConn>) {
+    let (conn, res, peer) = connect_pair_h(epmd, case, header, dev, timeout_ms).await;
+    let p = tokio::time::timeout(Duration::from_secs(5), peer).await.ok().and_then(|r| r.ok()).flatten();
+    (conn, res, p)
+}
+
+async fn connect_pair_h(epmd: &FakeEpmd, case: usize, header: bool, dev: Deviation, timeout_ms: u64) -> (Connection, edp_client::Result<()>, tokio::task::JoinHandle<Option<PeerConn>>) {
+    let short = format!("c07p{}", case);
+    let listener = listen_as(epmd, &short).await;
+    let mut pcfg = PeerCfg::new(&format!("{}@127.0.0.1", short), "c07cookie");
+    pcfg.deviation = dev;
+    if header {
+        pcfg.flags |= 0x2000;
+    }
+    let peer = tokio::spawn(async move { accept_and_handshake(&listener, &pcfg).await });
+    let mut flags = DistributionFlags::default().as_u64();
+    if header {
+        flags |= 0x2000;
+    }
+    let cfg = ConnectionConfig::new(format!("c07c{}@127.0.0.1", case), format!("{}@127.0.0.1", short), "c07cookie")
+        .with_flags(DistributionFlags::new(flags))
+        .with_timeout(Duration::from_millis(timeout_ms));
+    let mut conn = Connection::new(cfg);
+    let res = conn.connect().await;
+    (conn, res, peer)
+}
+
+fn neg_text(c: &Connection) -> String {
+    c.negotiated_flags().map(|f| f.as_u64().to_string()).unwrap_or_else(|| "-".to_string())
+}
+
+async fn part_a(ctx: &mut Ctx, epmd: &FakeEpmd, case: &mut usize) {
+    let cfg = Cfg::default();
+    for header in [false, true] {
+        *case += 1;
+        let mode = if header { "hdr" } else { "pt" };
+        // a loaded machine may miss a timeout during set-up: try again before calling it a failure
+        let mut pair = None;
+        let mut why = String::new();
+        for _attempt in 0..3 {
+            let (conn, res, peer) = connect_pair(epmd, *case, header, Deviation::None, 5000).await;
+            match (peer, res.is_ok() && conn.is_connected()) {
+                (Some(p), true) => {
+                    pair = Some((conn, p));
+                    break;
+                }
+                (p, _) => {
+                    why = format!("peer_finished={} connect={:?}", p.is_some(), res.err().map(|e| e.to_string()));
+                    ctx.count("setup_retries");
+                    *case += 1;
+                }
+            }
+        }
+        let Some((mut conn, mut peer)) = pair else {
+            ctx.fail("c07-setup", &format!("mode={} {}", mode, why));
+            continue;
+        };
+        let neg = neg_text(&conn);
+        let negotiated_header = conn.negotiated_flags().map(|f| f.as_u64() & 0x2000 != 0).unwrap_or(false);
+        if negotiated_header != header {
+            ctx.fail("c07-setup", &format!("mode={} negotiated flags {}", mode, neg));
+            continue;
+        }
+        let n = ctx.n(200, 2500);
+        for i in 0..n {
+            let op = gen_op(ctx, &cfg);
+            let sentinel = ctx.rng.bytes(16);
+            HOOK_HITS.store(0, Ordering::SeqCst);
+            let ot = op.text();
+            let fut = async {
+                let r = op.run(&mut conn).await;
+                let s = conn.send_raw(&sentinel).await;
+                (r, s)
+            };
+            let joined = tokio::time::timeout(Duration::from_secs(20), async { tokio::join!(fut, read_until_sentinel(&mut peer, &sentinel, Duration::from_secs(15))) }).await;
+            let Ok(((r, s), wire)) = joined else {
+                ctx.fail("c07-operation-hangs", &format!("mode={} op={}", mode, &ot[..ot.len().min(300)]));
+                return;
+            };
+            let hits = HOOK_HITS.load(Ordering::SeqCst);
+            let Some(wire) = wire else {
+                ctx.fail("c07-stream-broken", &format!("mode={} op#{} {} result={:?} sentinel={:?}", mode, i, op.kind(), r.as_ref().err().map(|e| e.to_string()), s.err().map(|e| e.to_string())));
+                return;
+            };
+            ctx.count(&format!("{}_{}_{}", mode, op.kind(), if r.is_ok() { "ok" } else { "err" }));
+            ctx.add("wire_bytes", wire.len() as u64);
+            let order = if header {
+                match &r {
+                    Ok(()) => match header_order(&wire) {
+                        Some(o) => o,
+                        None => {
+                            ctx.fail("c07-distribution-header-unreadable", &format!("op={} wire={}", &ot[..ot.len().min(300)], hex(&wire[..wire.len().min(64)])));
+                            "*".to_string()
+                        }
+                    },
+                    Err(_) => "*".to_string(),
+                }
+            } else {
+                "-".to_string()
+            };
+            let impl_res = match &r {
+                Ok(()) => format!("ok {} w={}", hex(&wire), hits + 1),
+                Err(e) => err_class(e),
+            };
+            ctx.tie("gen", &format!("c07send connected {} 1 {} {}", neg, order, ot), &impl_res);
+            match &r {
+                Ok(()) => ctx.prop("gen", &format!("c07read {} {} {}", mode, hexarg(&wire), ot), "ok"),
+                Err(_) => ctx.prop("gen", &format!("c07none {}", hexarg(&wire)), "ok"),
+            }
+        }
+        // close(): later operations fail and write nothing; the peer sees the end of the stream with no stray bytes
+        let _ = conn.close().await;
+        for _ in 0..6 {
+            let op = gen_op(ctx, &cfg);
+            let r = op.run(&mut conn).await;
+            let impl_res = match &r {
+                Ok(()) => "ok".to_string(),
+                Err(e) => err_class(e),
+            };
+            ctx.count("closed_ops");
+            ctx.tie("gen", &format!("c07send {} {} 0 - {}", conn.state().as_str(), neg_text(&conn), op.text()), &impl_res);
+        }
+        let stray = peer.recv_bytes_until_quiet(Duration::from_millis(30)).await;
+        ctx.prop("gen", &format!("c07none {}", hexarg(&stray)), "ok");
+    }
+}
+
+async fn part_b(ctx: &mut Ctx, epmd: &FakeEpmd, case: &mut usize) {
+    let cfg = Cfg::default();
+    // never connected
+    let mut fresh = Connection::new(ConnectionConfig::new("c07fresh@127.0.0.1", "nobody@127.0.0.1", "x"));
+    for _ in 0..ctx.n(12, 200) {
+        let op = gen_op(ctx, &cfg);
+        let r = op.run(&mut fresh).await;
+        let impl_res = match &r {
+            Ok(()) => "ok".to_string(),
+            Err(e) => err_class(e),
+        };
+        ctx.count("state_disconnected_ops");
+        ctx.tie("gen", &format!("c07send {} {} 0 - {}", fresh.state().as_str(), neg_text(&fresh), op.text()), &impl_res);
+        if r.is_ok() {
+            ctx.fail("c07-operation-before-connect-succeeds", &op.text());
+        }
+    }
+    // handshake broken at each step: the socket is open, the state machine is not `connected`
+    let devs = vec![
+        Deviation::Status("nok".into()),
+        Deviation::WrongStatusTag,
+        Deviation::WrongChallengeTag,
+        Deviation::TruncatedChallenge,
+        Deviation::WrongAckDigest,
+        Deviation::AckForWrongChallenge,
+        Deviation::WrongAckTag,
+        Deviation::TruncatedAck,
+        Deviation::CloseAfterStatus,
+        Deviation::CloseAfterChallenge,
+    ];
+    for dev in devs {
+        *case += 1;
+        let header = ctx.rng.chance(1, 2);
+        let (mut conn, res, mut handle) = connect_pair_h(epmd, *case, header, dev.clone(), 300).await;
+        if res.is_ok() && conn.is_connected() {
+            // C04's subject; here only: a connection that says connected is not a case of this part
+            ctx.count("deviation_connected_anyway");
+            continue;
+        }
+        let st = conn.state().as_str();
+        ctx.count(&format!("state_{}_after_failed_handshake", st));
+        for _ in 0..ctx.n(6, 40) {
+            let op = gen_op(ctx, &cfg);
+            let r = tokio::time::timeout(Duration::from_secs(5), op.run(&mut conn)).await;
+            let impl_res = match &r {
+                Ok(Ok(())) => "ok".to_string(),
+                Ok(Err(e)) => err_class(e),
+                Err(_) => "hang".to_string(),
+            };
+            ctx.tie("gen", &format!("c07send {} {} 1 * {}", conn.state().as_str(), neg_text(&conn), op.text()), &impl_res);
+            if matches!(r, Ok(Ok(()))) {
+                ctx.fail("c07-operation-before-connect-succeeds", &format!("dev={:?} state={} op={}", dev, st, op.text()));
+            }
+        }
+        // what did the peer get after the handshake broke?  A peer that already ended its script (ack-stage deviations)
+        // hands over its socket; a peer still waiting for the client's next handshake message would take stray bytes for
+        // that message, so the client side is closed now and whatever the peer read after that point is stray.
+        let ack_stage = matches!(dev, Deviation::WrongAckDigest | Deviation::AckForWrongChallenge | Deviation::WrongAckTag | Deviation::TruncatedAck);
+        let peer = match tokio::time::timeout(Duration::from_millis(60), &mut handle).await {
+            Ok(r) => r.ok().flatten(),
+            Err(_) => {
+                let _ = conn.close().await;
+                drop(conn);
+                tokio::time::timeout(Duration::from_secs(4), &mut handle).await.ok().and_then(|r| r.ok()).flatten()
+            }
+        };
+        if peer.is_none() {
+            ctx.count("peer_ended_without_reading_anything_more");
+        }
+        if let Some(mut p) = peer {
+            let mut stray = if ack_stage { vec![] } else { p.hs.reply.clone() };
+            stray.extend_from_slice(&p.recv_bytes_until_quiet(Duration::from_millis(40)).await);
+            ctx.count("peer_inspected_after_failed_handshake");
+            ctx.prop("gen", &format!("c07none {}", hexarg(&stray)), "ok");
+        }
+    }
+}
+
+tokio::task_local! {
+    static TASK: usize;
+}
+
+#[derive(Clone)]
+enum NodeOp {
+    Send(ExternalPid, OwnedTerm),
+    Link(ExternalPid, ExternalPid),
+    Unlink(ExternalPid, ExternalPid),
+    Monitor(ExternalPid, ExternalPid),
+    /// demonitor of the reference returned by this task's `n`-th monitor (falls back to a made-up reference)
+    Demonitor(ExternalPid, ExternalPid, usize),
+}
+
+/// a fresh node (operations before connect checked on it), started and connected to a fresh scripted peer
+async fn node_setup(ctx: &mut Ctx, epmd: &FakeEpmd, case: usize) -> Result<(edp_node::Node, PeerConn, String, String), String> {
+    let short = format!("c07n{}", case);
+    let peer_name = format!("{}@127.0.0.1", short);
+    let listener = listen_as(epmd, &short).await;
+    let pcfg = PeerCfg::new(&peer_name, "c07cookie");
+    let peer = tokio::spawn(async move { accept_and_handshake(&listener, &pcfg).await });
+    let me = format!("c07node{}@127.0.0.1", case);
+    let mut node = edp_node::Node::new(me.clone(), "c07cookie");
+    let peer_atom = Atom::new(&peer_name);
+    let me_atom = Atom::new(&me);
+    let remote = |id: u32, serial: u32| ExternalPid::new(peer_atom.clone(), id, serial, 77);
+    let local = |id: u32, serial: u32| ExternalPid::new(me_atom.clone(), id, serial, 8);
+    // before start/connect: every remote operation fails, and there is no socket to write to
+    let pre = [
+        node.send(&remote(1, 0), OwnedTerm::Atom(Atom::new("early"))).await.is_ok(),
+        node.link(&local(1, 0), &remote(1, 0)).await.is_ok(),
+        node.unlink(&local(1, 0), &remote(1, 0)).await.is_ok(),
+    ];
+    ctx.count("node_ops_before_connect");
+    if pre.iter().any(|x| *x) {
+        ctx.fail("c07-operation-before-connect-succeeds", &format!("node level: send/link/unlink ok={:?}", pre));
+    }
+    node.start(0).await.map_err(|e| format!("node.start: {}", e))?;
+    node.connect(peer_name.clone()).await.map_err(|e| format!("node.connect: {}", e))?;
+    let peer = tokio::time::timeout(Duration::from_secs(5), peer).await.ok().and_then(|r| r.ok()).flatten().ok_or("peer handshake did not finish")?;
+    Ok((node, peer, peer_name, me))
+}
+
+async fn part_c(ctx: &mut Ctx, epmd: &FakeEpmd, case: &mut usize) {
+    let rounds = ctx.n(14, 200);
+    for round in 0..rounds {
+        *case += 1;
+        let k = if round == 0 { 1 } else { ctx.rng.range(2, 4) as usize };
+        let mut setup = None;
+        let mut why = String::new();
+        for _attempt in 0..3 {
+            match node_setup(ctx, epmd, *case).await {
+                Ok(x) => {
+                    setup = Some(x);
+                    break;
+                }
+                Err(e) => {
+                    why = e;
+                    ctx.count("setup_retries");
+                    *case += 1;
+                }
+            }
+        }
+        let Some((node, mut peer, peer_name, me)) = setup else {
+            ctx.fail("c07-setup", &format!("node round {}: {}", round, why));
+            continue;
+        };
+        let peer_atom = Atom::new(&peer_name);
+        let me_atom = Atom::new(&me);
+        let remote = |id: u32, serial: u32| ExternalPid::new(peer_atom.clone(), id, serial, 77);
+        let local = |id: u32, serial: u32| ExternalPid::new(me_atom.clone(), id, serial, 8);
+        let node = Arc::new(node);
+        // per-task programs
+        let cfg = Cfg { max_depth: 2, huge: false, ..Cfg::default() };
+        let mut progs: Vec<Vec<NodeOp>> = vec![];
+        for t in 0..k {
+            let m = ctx.rng.range(2, 6) as usize;
+            let mut ops = vec![];
+            let mut monitors = 0usize;
+            for s in 0..m {
+                let from = local((t * 1000 + s) as u32, gen_u32(&mut ctx.rng) >> 4);
+                let to = if ctx.rng.chance(1, 4) {
+                    // node-local form of a pid of the peer node
+                    let p = remote(gen_u32(&mut ctx.rng), gen_u32(&mut ctx.rng));
+                    let enc = erltf::encode(&OwnedTerm::Pid(p.clone())).unwrap();
+                    let mut b = ctx.rng.bytes(8);
+                    b.extend_from_slice(&enc[1..]);
+                    ExternalPid::with_local_ext_bytes(p.node, p.id, p.serial, p.creation, b)
+                } else {
+                    remote(gen_u32(&mut ctx.rng), gen_u32(&mut ctx.rng))
+                };
+                // round 0: the very first remote unlink of a fresh node (its id comes from a counter that starts at 0)
+                let pick = if round == 0 && s == 0 { 4 } else { ctx.rng.below(8) };
+                let op = match pick {
+                    0..=2 => {
+                        let body = gen_term(&mut ctx.rng, &cfg, 0);
+                        NodeOp::Send(to, OwnedTerm::Tuple(vec![OwnedTerm::Integer(t as i64), OwnedTerm::Integer(s as i64), body]))
+                    }
+                    3 => NodeOp::Link(from, to),
+                    4 => NodeOp::Unlink(from, to),
+                    5 | 6 => {
+                        monitors += 1;
+                        NodeOp::Monitor(from, to)
+                    }
+                    _ => NodeOp::Demonitor(from, to, if monitors > 0 { ctx.rng.below(monitors as u64) as usize } else { usize::MAX }),
+                };
+                ctx.count(&format!("node_op_{}", match &op { NodeOp::Send(..) => "send", NodeOp::Link(..) => "link", NodeOp::Unlink(..) => "unlink", NodeOp::Monitor(..) => "monitor", NodeOp::Demonitor(..) => "demonitor" }));
+                ops.push(op);
+            }
+            progs.push(ops);
+        }
+        // seeded yield decisions
+        let yields: Arc<Vec<u32>> = Arc::new((0..4096).map(|_| ctx.rng.below(4) as u32).collect());
+        let yi = Arc::new(AtomicUsize::new(0));
+        let trace: Arc<Mutex<Vec<(usize, char)>>> = Arc::new(Mutex::new(vec![]));
+        {
+            let (yields, yi, trace) = (yields.clone(), yi.clone(), trace.clone());
+            edp_client::verif_hooks::set_yield_hook(Some(Box::new(move |name: &str| {
+                let c = match name {
+                    "send:after_len" => 'l',
+                    "send:after_marker" => 'm',
+                    "send:after_control" => 'c',
+                    _ => return 0,
+                };
+                let t = TASK.try_with(|t| *t).unwrap_or(usize::MAX);
+                trace.lock().unwrap().push((t, c));
+                yields[yi.fetch_add(1, Ordering::SeqCst) % yields.len()]
+            })));
+        }
+        let texts: Arc<Mutex<Vec<Vec<String>>>> = Arc::new(Mutex::new(vec![vec![]; k]));
+        let failures: Arc<Mutex<Vec<String>>> = Arc::new(Mutex::new(vec![]));
+        let mut handles = vec![];
+        let pre_yields: Vec<u32> = (0..k).map(|_| ctx.rng.below(3) as u32).collect();
+        for (t, ops) in progs.iter().cloned().enumerate() {
+            let (node, trace, texts, failures) = (node.clone(), trace.clone(), texts.clone(), failures.clone());
+            let dummy = local(0, 0);
+            let me_atom = me_atom.clone();
+            let py = pre_yields[t];
+            handles.push(tokio::spawn(TASK.scope(t, async move {
+                for _ in 0..py {
+                    tokio::task::yield_now().await;
+                }
+                let mut refs: Vec<ExternalReference> = vec![];
+                for op in ops {
+                    let (res, text): (Result<(), String>, String) = match op {
+                        NodeOp::Send(to, m) => {
+                            let r = node.send(&to, m.clone()).await.map_err(|e| e.to_string());
+                            (r, format!("S;{};{};{}", pid_text(&dummy), pid_text(&to), term_text(&m)))
+                        }
+                        NodeOp::Link(f, to) => (node.link(&f, &to).await.map_err(|e| e.to_string()), format!("L;{};{}", pid_text(&f), pid_text(&to))),
+                        NodeOp::Unlink(f, to) => (node.unlink(&f, &to).await.map_err(|e| e.to_string()), format!("U;{};{};?", pid_text(&f), pid_text(&to))),
+                        NodeOp::Monitor(f, to) => match node.monitor(&f, &to).await {
+                            Ok(r) => {
+                                let txt = format!("M;{};{};{}", pid_text(&f), pid_text(&to), ref_text(&r));
+                                refs.push(r);
+                                (Ok(()), txt)
+                            }
+                            Err(e) => (Err(e.to_string()), "M".to_string()),
+                        },
+                        NodeOp::Demonitor(f, to, i) => {
+                            let r = refs.get(i).cloned().unwrap_or_else(|| ExternalReference::new(me_atom.clone(), 8, vec![t as u32, 4242, 1]));
+                            (node.demonitor(&f, &to, &r).await.map_err(|e| e.to_string()), format!("D;{};{};{}", pid_text(&f), pid_text(&to), ref_text(&r)))
+                        }
+                    };
+                    // recorded in the same poll in which the operation returned (the lock was released just before)
+                    trace.lock().unwrap().push((t, 'e'));
+                    match res {
+                        Ok(()) => texts.lock().unwrap()[t].push(text),
+                        Err(e) => failures.lock().unwrap().push(format!("task {} op {}: {}", t, text, e)),
+                    }
+                }
+            })));
+        }
+        let mut hung = false;
+        for h in handles {
+            if tokio::time::timeout(Duration::from_secs(8), h).await.is_err() {
+                hung = true;
+            }
+        }
+        edp_client::verif_hooks::set_yield_hook(None);
+        if hung {
+            ctx.fail("c07-operation-hangs", &format!("node round {} k={}", round, k));
+            return;
+        }
+        for f in failures.lock().unwrap().iter() {
+            ctx.fail("c07-node-operation-fails", f);
+        }
+        // sentinel through the same connection, then read everything
+        let sentinel = ctx.rng.bytes(16);
+        let conns = node.connections();
+        let neg;
+        {
+            let Some(c) = conns.get(peer_name.as_str()).map(|r| r.value().clone()) else {
+                ctx.fail("c07-setup", "node: connection disappeared");
+                continue;
+            };
+            let mut g = c.lock().await;
+            neg = neg_text(&g);
+            let _ = g.send_raw(&sentinel).await;
+        }
+        let Some(wire) = read_until_sentinel(&mut peer, &sentinel, Duration::from_secs(10)).await else {
+            ctx.fail("c07-stream-broken", &format!("node round {} k={}", round, k));
+            continue;
+        };
+        let texts = texts.lock().unwrap().clone();
+        let total: usize = texts.iter().map(|l| l.len()).sum();
+        let prog = texts.iter().map(|l| if l.is_empty() { "-".to_string() } else { l.join("/") }).collect::<Vec<_>>().join("~");
+        let tr = trace.lock().unwrap().iter().map(|(t, c)| format!("{}.{}", t, c)).collect::<Vec<_>>().join(",");
+        let switches = trace.lock().unwrap().windows(2).filter(|w| w[0].0 != w[1].0).count();
+        ctx.add("task_switches_in_traces", switches as u64);
+        ctx.add("traces_validated", 1);
+        ctx.add("node_frames", total as u64);
+        ctx.count(&format!("node_round_tasks_{}", k));
+        ctx.tie("gen", &format!("c07trace {} {} {} {}", neg, prog, if tr.is_empty() { "-".to_string() } else { tr }, hexarg(&wire)), &format!("ok frames={}", total));
+        ctx.prop("gen", &format!("c07wire {} {}", prog, hexarg(&wire)), &format!("ok frames={}", total));
+        drop(node);
+        drop(peer);
+    }
+}
+
+/// One-off demonstration (`drive c07 quick 1 out big`; needs ~13 GiB of memory, not part of any tier): a frame of 2^32
+/// bytes or more.  The length prefix is 32 bits wide, so such an operation cannot be a frame; it has to be refused.
+async fn part_big(ctx: &mut Ctx, epmd: &FakeEpmd, case: &mut usize) {
+    for header in [false, true] {
+        *case += 1;
+        let (mut conn, res, peer) = connect_pair(epmd, *case, header, Deviation::None, 120_000).await;
+        let (Some(mut peer), true) = (peer, res.is_ok()) else {
+            ctx.fail("c07-setup", "big: connect failed");
+            return;
+        };
+        let n: usize = (1usize << 32) - 16;
+        let op = Op::Send(ExternalPid::new(Atom::new("a@h"), 1, 2, 3), ExternalPid::new(Atom::new("b@h"), 4, 5, 6), OwnedTerm::Binary(vec![0u8; n]));
+        let sentinel = ctx.rng.bytes(16);
+        let mut tail = (sentinel.len() as u32).to_be_bytes().to_vec();
+        tail.extend_from_slice(&sentinel);
+        let fut = async {
+            let r = op.run(&mut conn).await;
+            let _ = conn.send_raw(&sentinel).await;
+            r
+        };
+        let reader = async {
+            let mut first: Vec<u8> = vec![];
+            let mut last: Vec<u8> = vec![];
+            let mut total: u64 = 0;
+            let mut buf = vec![0u8; 1 << 20];
+            loop {
+                if last.len() >= tail.len() && last[last.len() - tail.len()..] == tail[..] {
+                    break;
+                }
+                match peer.stream.read(&mut buf).await {
+                    Ok(k) if k > 0 => {
+                        total += k as u64;
+                        if first.len() < 4 {
+                            first.extend_from_slice(&buf[..k.min(4 - first.len())]);
+                        }
+                        last.extend_from_slice(&buf[..k]);
+                        if last.len() > 64 {
+                            last.drain(..last.len() - 64);
+                        }
+                    }
+                    _ => break,
+                }
+            }
+            (first, total - tail.len() as u64)
+        };
+        let (r, (first, total)) = tokio::join!(fut, reader);
+        let text = format!(
+            "mode={} payload=Binary({} bytes) result={} bytes_on_wire={} length_prefix={}",
+            if header { "hdr" } else { "pt" },
+            n,
+            match &r { Ok(()) => "ok".to_string(), Err(e) => e.to_string().replace(' ', "_") },
+            total,
+            if first.len() == 4 && total > 0 { u32::from_be_bytes([first[0], first[1], first[2], first[3]]).to_string() } else { "-".to_string() }
+        );
+        eprintln!("c07 big: {}", text);
+        let prefix_ok = total == 0 || (first.len() == 4 && u32::from_be_bytes([first[0], first[1], first[2], first[3]]) as u64 + 4 == total);
+        if !(r.is_ok() == (total > 0) && prefix_ok) {
+            ctx.fail("c07-frame-length-truncated", &text);
+        }
+        ctx.count("big_frames");
+    }
+}
+
+pub fn run(ctx: &mut Ctx) {
+    let rt = tokio::runtime::Builder::new_current_thread().enable_all().build().unwrap();
+    rt.block_on(async {
+        let epmd = FakeEpmd::start().await;
+        edp_client::verif_hooks::set_yield_hook(Some(Box::new(|name: &str| {
+            if name.starts_with("send:") {
+                HOOK_HITS.fetch_add(1, Ordering::SeqCst);
+            }
+            0
+        })));
+        let mut case = 0usize;
+        if ctx.args.iter().any(|a| a == "big") {
+            part_big(ctx, &epmd, &mut case).await;
+            return;
+        }
+        part_a(ctx, &epmd, &mut case).await;
+        part_b(ctx, &epmd, &mut case).await;
+        edp_client::verif_hooks::set_yield_hook(None);
+        part_c(ctx, &epmd, &mut case).await;
+    });
+}
